@@ -44,6 +44,8 @@ class ParamStream(Stream):
     def run(self, d):
         try:
             S, pairs = paramlib.build(copy.deepcopy(d["tree"]), [0])
+            if (len(d["kw"]) + len(d["tree"].get("children", []))) % 3 == 0:
+                S = S.shallow_copy()          # the copy (its placements carry the renamings over) must deliver alike
             mod = S.solve(**{paramlib.pn(k): v for k, v in d["kw"]})
             vals = [mod.get_A(b, a) for a, b in pairs]
             obs = "Obs " + cvec(vals, cf)
